@@ -1,0 +1,173 @@
+//go:build verif
+
+// Machine-checked contracts for package protocol (comment-only; read by
+// /verif/gocv). Nothing in this file is compiled into the gateway.
+// Clause tags such as [C01] name the property of /verif/properties.jsonl a
+// clause serves; untagged clauses are helper facts shared by all of them.
+package protocol
+
+// ---------------------------------------------------------------- spec functions
+
+//@ define srvCaps(sc, tok) = uint16(ite(sc, 1, 0)) | uint16(ite(tok, 2, 0))
+//@ define statusOf(b) = ite(le16(b, 0) == 5, le32(b, 10), le32(b, 8))
+//@ define isResp(ty) = ty == 0x2 || ty == 0x5 || ty == 0x7 || ty == 0x9 || ty == 0x11
+//@ define respTypeOf(req) = ite(req == 0x1, 0x2, ite(req == 0x4, 0x5, ite(req == 0x6, 0x7, ite(req == 0x8, 0x9, ite(req == 0x10, 0x11, 0)))))
+//@ define redirSpec(f) = ite(f.DisableAll, 0x40000000, ite(f.EnableAll, 0x80000000, ite(f.Drive, 0, 0x01) | ite(f.Printer, 0, 0x02) | ite(f.Port, 0, 0x04) | ite(f.Clipboard, 0, 0x08) | ite(f.Pnp, 0, 0x10)))
+
+// what may be written to the client, given the history of this tunnel (C01):
+//@ define mayWrite(b) = (le16(b, 0) != 0xA ==> !#errSent && !#closeOK)
+//@     && (le16(b, 0) == 0x2 && statusOf(b) == 0 ==> !#hsOK && !#tcOK && !#taOK && !#ccOK)
+//@     && (le16(b, 0) == 0x5 && statusOf(b) == 0 ==> #hsOK && !#tcOK && (#cookieRequired ==> #cookieOK))
+//@     && (le16(b, 0) == 0x7 && statusOf(b) == 0 ==> #tcOK && !#taOK)
+//@     && (le16(b, 0) == 0x9 && statusOf(b) == 0 ==> #taOK && !#ccOK && #dials == 1 && #backend != nil)
+//@     && (le16(b, 0) == 0x11 && statusOf(b) == 0 ==> #ccOK)
+// the effect of a write on the history:
+//@ define written(b) = #lastType == le16(b, 0) && #lastStatus == statusOf(b)
+//@     && #errSent == (old(#errSent) || (le16(b, 0) != 0xA && statusOf(b) != 0))
+//@     && #hsOK == (old(#hsOK) || (le16(b, 0) == 0x2 && statusOf(b) == 0))
+//@     && #tcOK == (old(#tcOK) || (le16(b, 0) == 0x5 && statusOf(b) == 0))
+//@     && #taOK == (old(#taOK) || (le16(b, 0) == 0x7 && statusOf(b) == 0))
+//@     && #ccOK == (old(#ccOK) || (le16(b, 0) == 0x9 && statusOf(b) == 0))
+//@     && #closeOK == (old(#closeOK) || (le16(b, 0) == 0x11 && statusOf(b) == 0))
+
+// ---------------------------------------------------------------- callbacks (function-typed fields of Gateway)
+
+//@ functype protocol.CheckPAACookieFunc(ctx, cookie) (ok, err)
+//@   assigns #cookieOK, region(protocol.Tunnel.TargetServer), region(protocol.Tunnel.RemoteAddr), region(identity.User.userName)
+//@   ensures #cookieOK == ok
+
+//@ functype protocol.CheckHostFunc(ctx, host) (ok, err)
+//@   assigns #hostOK, #hostChecked
+//@   ensures #hostOK == ok && #hostChecked == host
+
+//@ functype protocol.CheckClientNameFunc(ctx, name) (ok, err)
+//@   assigns #lastStatus
+//@   ensures #lastStatus == old(#lastStatus)
+
+// ---------------------------------------------------------------- tunnel
+
+//@ func (*Tunnel).Write
+//@   requires[C10] wf: t != nil && t.transportOut != nil
+//@   requires[C01] history: mayWrite(pkt)
+//@   assigns t.BytesSent, #lastType, #lastStatus, #errSent, #hsOK, #tcOK, #taOK, #ccOK, #closeOK
+//@   ensures[C01] written: written(pkt)
+//@   nopanic[C10]
+
+//@ func (*Tunnel).Read
+//@   requires[C10] wf: t != nil && t.transportIn != nil
+//@   requires[C01] quiet: !#errSent && !#closeOK
+//@   assigns t.BytesReceived, t.LastSeen
+//@   nopanic[C10]
+
+// ---------------------------------------------------------------- packet builders and decoders
+
+//@ func (*Processor).matchAuth
+//@   requires p != nil && p.gw != nil
+//@   ensures[C17] iff: (err == nil) == ((srvCaps(p.gw.SmartCardAuth, p.gw.TokenAuth) == 0 && clientAuthCaps == 0) || (srvCaps(p.gw.SmartCardAuth, p.gw.TokenAuth) & clientAuthCaps) != 0)
+//@   ensures[C17] advertise: err == nil ==> caps == srvCaps(p.gw.SmartCardAuth, p.gw.TokenAuth)
+//@   nopanic[C10]
+
+//@ func makeRedirectFlags
+//@   ensures[C16] disableAll: flags.DisableAll ==> result == 0x40000000
+//@   ensures[C16] enableAll: !flags.DisableAll && flags.EnableAll ==> result == 0x80000000
+//@   ensures[C16] classes: !flags.DisableAll && !flags.EnableAll ==> (result &^ 0x1F) == 0 && ((result & 0x01) == 0) == flags.Drive && ((result & 0x02) == 0) == flags.Printer && ((result & 0x04) == 0) == flags.Port && ((result & 0x08) == 0) == flags.Clipboard && ((result & 0x10) == 0) == flags.Pnp
+//@   ensures spec: result == redirSpec(flags)
+//@   nopanic[C10]
+
+//@ func createPacket
+//@   requires len(data) < 0xfffffff8
+//@   ensures[C06,C16] len: len(packet) == len(data) + 8
+//@   ensures[C06,C16] hdr: le16(packet, 0) == pktType && le16(packet, 2) == 0 && le32(packet, 4) == uint32(len(data) + 8)
+//@   ensures[C06,C16] body: forall i :: 8 <= i && i < len(data) + 8 ==> packet[i] == data[i-8]
+//@   nopanic[C10]
+
+//@ func (*Processor).handshakeResponse
+//@   ensures[C16,C17] wf: len(result) == 18 && le16(result, 0) == 0x2 && le16(result, 2) == 0 && le32(result, 4) == 18
+//@   ensures[C16,C17] body: le32(result, 8) == uint32(errorCode) && result[12] == major && result[13] == minor && le16(result, 14) == 0 && le16(result, 16) == caps
+//@   nopanic[C10]
+
+//@ func (*Processor).tunnelResponse
+//@   ensures[C16] wf: len(result) == 26 && le16(result, 0) == 0x5 && le16(result, 2) == 0 && le32(result, 4) == 26
+//@   ensures[C16] body: le16(result, 8) == 0 && le32(result, 10) == uint32(errorCode) && le16(result, 14) == 0x3 && le16(result, 16) == 0 && le32(result, 18) == 10 && le32(result, 22) == 0x2
+//@   nopanic[C10]
+
+//@ func (*Processor).tunnelAuthResponse
+//@   requires p != nil && p.gw != nil
+//@   assigns p.gw.IdleTimeout
+//@   ensures[C16] wf: len(result) == 24 && le16(result, 0) == 0x7 && le16(result, 2) == 0 && le32(result, 4) == 24
+//@   ensures[C16] body: le32(result, 8) == uint32(errorCode) && le16(result, 12) == 0x3 && le16(result, 14) == 0
+//@   ensures[C16] redirect: le32(result, 16) == uint32(redirSpec(old(p.gw.RedirectFlags)))
+//@   ensures[C16] timeout: le32(result, 20) == ite(old(p.gw.IdleTimeout) < 0, 0, uint32(old(p.gw.IdleTimeout)))
+//@   nopanic[C10]
+
+//@ func (*Processor).channelResponse
+//@   ensures[C16] wf: len(result) == 20 && le16(result, 0) == 0x9 && le16(result, 2) == 0 && le32(result, 4) == 20
+//@   ensures[C16] body: le32(result, 8) == uint32(errorCode) && le16(result, 12) == 0x1 && le16(result, 14) == 0 && le32(result, 16) == 1
+//@   nopanic[C10]
+
+//@ func (*Processor).channelCloseResponse
+//@   ensures[C16] wf: len(result) == 20 && le16(result, 0) == 0x11 && le16(result, 2) == 0 && le32(result, 4) == 20
+//@   ensures[C16] body: le32(result, 8) == uint32(errorCode) && le16(result, 12) == 0x1 && le16(result, 14) == 0 && le32(result, 16) == 1
+//@   nopanic[C10]
+
+//@ func readHeader
+//@   ensures[C08] ok: err == nil ==> len(data) >= 8 && le32(data, 4) >= 8 && int(le32(data, 4)) <= len(data)
+//@   ensures[C08] fields: err == nil ==> packetType == le16(data, 0) && size == le32(data, 4)
+//@   ensures[C08] payload: err == nil ==> packet == data[8:int(size)]
+//@   ensures[C08] reject: len(data) < 8 || int(le32(data, 4)) > len(data) ==> err != nil
+//@   nopanic[C10]
+
+//@ func (*Processor).channelRequest
+//@   ghostset #reqServer = server
+//@   ghostset #reqPort = port
+//@   ensures[C03] port: len(data) >= 4 ==> port == le16(data, 2)
+//@   nopanic[C10]
+
+//@ func DecodeUTF16
+//@   loop 0 invariant even: 0 <= i && i & 1 == 0
+//@   nopanic[C10]
+
+//@ func readMessage
+//@   requires[C10] in != nil
+//@   requires[C01] quiet: !#errSent && !#closeOK
+//@   loop 0 invariant index: 0 <= index && index <= 4096
+//@   nopanic[C10]
+
+// ---------------------------------------------------------------- relay
+
+//@ func receive
+//@   requires[C10] out != nil
+//@   requires[C01] relay: out == #backend ==> #ccOK && !#errSent && !#closeOK
+//@   assigns #relayed
+//@   nopanic[C10]
+
+//@ func forward
+//@   requires[C10] wf: in != nil && tunnel != nil && tunnel.transportOut != nil
+//@   spawn requires[C01] once: in == #backend && #dials == 1 && #fwd == 0
+//@   spawn assigns #fwd
+//@   spawn ensures #fwd == old(#fwd) + 1
+//@   assigns *
+//@   loop 0 invariant[C06] scratch: buflen(b1) == 0 && len(buf) == 4086
+//@   site (*Tunnel).Write requires[C06] datapkt: le16(arg1, 0) == 0xA && le16(arg1, 2) == 0 && le32(arg1, 4) == uint32(len(arg1)) && len(arg1) == n + 10 && le16(arg1, 8) == uint16(n) && n <= 65535
+//@   site (*Tunnel).Write requires[C06] payload: forall i :: 10 <= i && i < n + 10 ==> arg1[i] == buf[i-10]
+//@   nopanic[C10]
+
+// ---------------------------------------------------------------- the packet loop
+
+//@ func (*Processor).Process
+//@   requires[C10] wf: p != nil && p.gw != nil && p.tunnel != nil && p.tunnel.transportIn != nil && p.tunnel.transportOut != nil && p.tunnel.User != nil
+//@   requires start: p.state == 0 && !#errSent && !#closeOK && !#hsOK && !#tcOK && !#taOK && !#ccOK && #dials == 0 && #fwd == 0 && #backend == nil
+//@   requires wiring: #cookieRequired == (p.gw.CheckPAACookie != nil) && #hostRequired == (p.gw.CheckHost != nil)
+//@   loop 0 invariant[C01] phase: 0 <= p.state && p.state <= 5
+//@       && #hsOK == (p.state >= 1) && #tcOK == (p.state >= 2) && #taOK == (p.state >= 3) && #ccOK == (p.state >= 4)
+//@       && #dials == ite(p.state >= 4, 1, 0) && #fwd == #dials
+//@       && (p.state >= 4 ==> p.tunnel.rwc != nil && p.tunnel.rwc == #backend)
+//@       && (p.state < 4 ==> #backend == nil)
+//@       && (p.state >= 2 && #cookieRequired ==> #cookieOK)
+//@       && !#errSent && !#closeOK
+//@   assigns *
+//@   ensures[C01] once: #dials <= 1 && #fwd <= 1
+//@   ensures[C01] errorEnds: #errSent ==> result != nil
+//@   ensures[C01] cleanEnd: result == nil ==> #closeOK
+//@   site (*Tunnel).Write requires[C16] respType: le16(arg1, 0) == uint16(respTypeOf(pt))
+//@   nopanic[C10]
